@@ -1,77 +1,21 @@
 import GoldModel.Lemmas.LintSpec
+import GoldModel.Props.C15Spec
 /-!
 # C15 — unused-variable warnings are exact and per-method
 
-Property theorems only (helper lemmas: `Lemmas/Lint.lean`, `Lemmas/LintSpec.lean`).  Every statement
-is for every `norm : String → String` (the case folding), every method = every list of visits
-that starts with a procedure / function node, every list of methods; no bound on any of them.
-
-Specification (the property's reading of a method):
-* `locals m` — the local-variable declarations of the method, in order;
-* `mentioned norm m v` — some visit of the method is a terminal spelled like `v` up to `norm`
-  that is not a string literal and not the member name to the right of a dot (`x.v`, `x.v[i]`),
-  or a `for` block whose counter is spelled like `v`;
-* `unusedSpec norm m` — one warning per local that is not mentioned, on the declared name.
+Property theorems only (specification: `Props/C15Spec.lean`; helper lemmas: `Lemmas/Lint.lean`,
+`Lemmas/LintSpec.lean`).  Every statement is for every `norm : String → String` (the case folding),
+every method = every list of visits that starts with a procedure / function node, every list of
+methods; no bound on any of them.
 
 The model is the analyzer with the configuration read from the current source (`Cfg.code`, tables
 E8/E9).  `Cfg.pinned` is the analyzer of the pinned commit; the `…_old_fails…` theorems are
-the negation witnesses for the clauses that were false there.
+the negation witnesses for the clauses that were false there; the `…_needs_…` theorems show
+that each guard of `unused_exact` is necessary (inputs on which the analyzer's rule differs from
+the property's wording).
 -/
 namespace Gold.C15
 open Gold Gold.Lint
-
-/-! ## specification -/
-
-/-- the member name to the right of a dot: `x.name` and `x.name[i]` -/
-def memberPos (e : Ev) : Bool :=
-  match e.parent with
-  | some p =>
-    (isDot p && e.idx == 1) ||
-    (p.kind == "array_access" && e.idx == 0 &&
-      (match e.gparent with
-       | some g => isDot g && e.pidx == 1
-       | none => false))
-  | none => false
-
-/-- the property's reading of one visit: which name it declares or mentions -/
-def specAct (e : Ev) : TAct :=
-  if isMethod e.node then .enter
-  else if e.node.kind == "terminal" then
-    if tokIs e.node "StringLiteral" then .other
-    else if memberPos e then .other else .hit e.node.ident
-  else if e.node.kind == "for" then (match forVar e.node with | some v => .hit v | none => .other)
-  else if e.node.kind == "lvar_decl" then .decl e.node.ident e.node.sel
-  else .other
-
-def acts (m : Method) : List TAct := m.body.map specAct
-
-/-- the local variables of a method: declared name and the range of that name -/
-def locals (m : Method) : List (String × Range) := decls (acts m)
-
-def mentioned (norm : String → String) (m : Method) (v : String) : Bool := hitIn norm (acts m) (norm v)
-
-/-- the warning sits on the declared name and names it as declared -/
-def unusedWarning (d : String × Range) : LDiag :=
-  ⟨E8.sevUnused, d.2, E8.unusedMsgPre ++ d.1 ++ E8.unusedMsgPost, E8.tagsUnused⟩
-
-def unusedSpec (norm : String → String) (m : Method) : List LDiag :=
-  ((locals m).filter (fun d => !mentioned norm m d.1)).map unusedWarning
-
-/-- the analyzer of the current source on one method -/
-def unusedModel (norm : String → String) (m : Method) : List LDiag := uvRun Cfg.code norm m.evs
-
-/-- the analyzer of the pinned commit -/
-def unusedModelOld (norm : String → String) (m : Method) : List LDiag := uvRun Cfg.pinned norm m.evs
-
-/-- guard: every local is declared once (up to `norm`) and before it is mentioned -/
-def WellDeclared (norm : String → String) (m : Method) : Bool := wellDeclared norm (acts m)
-
-/-- guard: on every visit of the method the analyzer's reading of the node (`is_left_node` compares
-    `identifier:position` strings of the node and the dot's left operand and looks one level up
-    only) coincides with the property's (`memberPos`) — or both readings concern no local of
-    the method (a mention of a name the method does not declare) -/
-def Agrees (norm : String → String) (m : Method) : Bool :=
-  m.body.all (fun e => agreeUpTo norm ((locals m).map (fun d => norm d.1)) (uvAct Cfg.fixed e) (specAct e))
 
 /-! ## tie to the source: the tables say the analyzer is the repaired one -/
 
@@ -81,7 +25,7 @@ theorem code_uv :
     Cfg.code.uv = Cfg.fixed.uv ∧ Cfg.code.uvForCounter = Cfg.fixed.uvForCounter ∧
     Cfg.code.uvSkipStrings = Cfg.fixed.uvSkipStrings ∧ Cfg.code.uvMsgKey = Cfg.fixed.uvMsgKey := by decide
 
-theorem code_resets : Cfg.code.uv.resets = true ∧ Cfg.code.up.resets = true ∧ Cfg.code.ihResets = true := by decide
+theorem code_resets : Cfg.code.uv.resets = true := by decide
 
 theorem uvAct_code (e : Ev) : uvAct Cfg.code e = uvAct Cfg.fixed e := by
   simp only [uvAct, code_uv.2.1, code_uv.2.2.1]
@@ -101,12 +45,6 @@ theorem specAct_not_enter {e : Ev} (h : isMethod e.node = false) : specAct e ≠
   simp only [specAct, h, Bool.false_eq_true, ↓reduceIte]
   repeat' split
   all_goals simp
-
-theorem filterMap_ite_map {α β : Type} (p : α → Bool) (f : α → β) (l : List α) :
-    l.filterMap (fun d => if p d then none else some (f d)) = (l.filter (fun d => !p d)).map f := by
-  induction l with
-  | nil => rfl
-  | cons x rest ih => cases h : p x <;> simp [h, ih]
 
 /-- **unused_exact** — for every method whose locals are declared once and before use:
     the analyzer reports exactly the locals that no visit of the method mentions (names compared
@@ -141,62 +79,43 @@ theorem unused_exact (norm : String → String) (m : Method)
 
 /-! ## per-method independence -/
 
-theorem lintAll_cons (cfg : Cfg) (norm : String → String) (h1 : cfg.uv.resets = true) (h2 : cfg.up.resets = true)
-    (h3 : cfg.ihResets = true) (pre : List Ev) (ms : List Method) :
-    (lintEvents cfg norm (pre ++ ms.flatMap Method.evs)).Perm
-      (lintEvents cfg norm pre ++ ms.flatMap (lintMethod cfg norm)) := by
-  induction ms generalizing pre with
-  | nil => simp
-  | cons m rest ih =>
-    simp only [List.flatMap_cons, Method.evs, List.cons_append]
-    refine (lintEvents_split cfg norm h1 h2 h3 pre m.hhead _).trans ?_
-    refine List.Perm.append_left _ ?_
-    have := ih (m.head :: m.body)
-    simp only [List.cons_append] at this
-    refine this.trans ?_
-    simp [lintMethod, Method.evs]
-
-/-- **lint_file** — the response for a file = the items of what precedes its first method,
-    plus, for every method, the items of that method analysed alone. -/
-theorem lint_file (norm : String → String) (pre : List Ev) (ms : List Method) :
-    (lintEvents Cfg.code norm (pre ++ ms.flatMap Method.evs)).Perm
-      (lintEvents Cfg.code norm pre ++ ms.flatMap (lintMethod Cfg.code norm)) :=
-  lintAll_cons Cfg.code norm code_resets.1 code_resets.2.1 code_resets.2.2 pre ms
-
-theorem lintAll_eq (norm : String → String) (ms : List Method) :
-    (lintAll Cfg.code norm ms).Perm (ms.flatMap (lintMethod Cfg.code norm)) := by
-  have := lint_file norm [] ms
-  simpa [lintAll, lintEvents_nil] using this
-
-/-- **lint_hom** — per-method independence: the items for `ms₁ ++ ms₂` are the multiset union of
-    the items for `ms₁` and for `ms₂` (no analyzer state survives a method boundary). -/
+/-- **lint_hom** — per-method independence of the unused-variable analyzer: the items for
+    `ms₁ ++ ms₂` are those for `ms₁` followed by those for `ms₂` (the map does not survive a method
+    boundary; as lists, hence as multisets). -/
 theorem lint_hom (norm : String → String) (ms₁ ms₂ : List Method) :
-    (lintAll Cfg.code norm (ms₁ ++ ms₂)).Perm (lintAll Cfg.code norm ms₁ ++ lintAll Cfg.code norm ms₂) := by
-  refine (lintAll_eq norm _).trans ?_
-  rw [List.flatMap_append]
-  exact (List.Perm.append (lintAll_eq norm ms₁) (lintAll_eq norm ms₂)).symm
+    unusedAll norm (ms₁ ++ ms₂) = unusedAll norm ms₁ ++ unusedAll norm ms₂ := by
+  cases ms₂ with
+  | nil => simp [unusedAll, uvRun, uvRaw, Machine.run, Machine.runFrom, tracker, report]
+  | cons m rest =>
+    simp only [unusedAll, List.flatMap_append, List.flatMap_cons, Method.evs, List.cons_append]
+    exact uvRun_split Cfg.code norm code_resets _ m.hhead _
+
+/-- the items of a file are those of its methods, each analysed alone -/
+theorem unusedAll_eq (norm : String → String) (ms : List Method) :
+    unusedAll norm ms = ms.flatMap (unusedModel norm) := by
+  induction ms with
+  | nil => simp [unusedAll, uvRun, uvRaw, Machine.run, Machine.runFrom, tracker, report]
+  | cons m rest ih =>
+    have := lint_hom norm [m] rest
+    simp only [List.singleton_append] at this
+    rw [this, ih]
+    simp [unusedAll, unusedModel]
 
 /-- **lint_perm** — permuting the methods permutes the items. -/
 theorem lint_perm (norm : String → String) (ms ms' : List Method) (h : ms.Perm ms') :
-    (lintAll Cfg.code norm ms).Perm (lintAll Cfg.code norm ms') :=
-  (lintAll_eq norm ms).trans ((List.Perm.flatMap_right _ h).trans (lintAll_eq norm ms').symm)
+    (unusedAll norm ms).Perm (unusedAll norm ms') := by
+  rw [unusedAll_eq, unusedAll_eq]
+  exact List.Perm.flatMap_right _ h
 
 /-- **lint_local** — the items of one method do not depend on the methods around it. -/
 theorem lint_local (norm : String → String) (ms₁ : List Method) (m : Method) (ms₂ : List Method) :
-    (lintAll Cfg.code norm (ms₁ ++ m :: ms₂)).Perm
-      (lintAll Cfg.code norm ms₁ ++ lintMethod Cfg.code norm m ++ lintAll Cfg.code norm ms₂) := by
-  refine (lint_hom norm ms₁ (m :: ms₂)).trans ?_
-  rw [List.append_assoc]
-  refine List.Perm.append_left _ ?_
-  have := lint_hom norm [m] ms₂
-  simp only [List.singleton_append] at this
-  refine this.trans (List.Perm.append_right _ ?_)
-  simp [lintAll, lintMethod]
+    unusedAll norm (ms₁ ++ m :: ms₂) = unusedAll norm ms₁ ++ unusedModel norm m ++ unusedAll norm ms₂ := by
+  simp only [unusedAll_eq, List.flatMap_append, List.flatMap_cons, List.append_assoc]
 
-/-- the unused-variable items of a file are, exactly and in order, those of its methods -/
+/-- the same at the level of visits: whatever precedes a method node (header, other methods) -/
 theorem unused_hom (norm : String → String) (e₁ : List Ev) (m : Method) (e₂ : List Ev) :
     uvRun Cfg.code norm (e₁ ++ m.head :: e₂) = uvRun Cfg.code norm e₁ ++ uvRun Cfg.code norm (m.head :: e₂) :=
-  uvRun_split Cfg.code norm code_resets.1 e₁ m.hhead e₂
+  uvRun_split Cfg.code norm code_resets e₁ m.hhead e₂
 
 /-! ## consistent renaming -/
 
